@@ -172,6 +172,15 @@ def item(av, i):
 
 def unmodelled_in(run, chk, rule, construct):
     """Turn unmodelled constructs met while analysing an anchored entry into an inconclusive obligation."""
+    ill = [e for e in run.I.events if e.kind in ("type-error", "index-error") and not getattr(e, "operand", None) is not None and False or
+           e.kind in ("type-error", "index-error")]
+    seen_ = set()
+    for e in ill:
+        if (e.loc, e.what) in seen_ or len(seen_) >= 3:
+            continue
+        seen_.add((e.loc, e.what))
+        chk.ob(rule, construct + "[well-typed]", "no operation on the path raises for every input (wrong operand kind, index past a tuple, float where an integer is required)",
+               False, derived=e.what, loc=e.loc, stmt=e.stmt, detail="the call cannot return: it raises")
     ui = [e for e in run.I.events if e.kind == "uninit-read"]
     for e in ui[:2]:
         chk.ob(rule, construct + "[initialised]", "a buffer from np.empty is completely written before it is read", False, derived=e.what,
